@@ -21,7 +21,7 @@ def initVal (r : ResId) : UInt64 := (1000 + r.ty * 10 + r.dyn).toUInt64
 
 def EffState.init : EffState := { world := initVal, locals := fun _ => (0, 0) }
 
-def upd {α β} [DecidableEq α] (f : α → β) (k : α) (v : β) : α → β := fun x => if x = k then v else f x
+def updF {α β} [DecidableEq α] (f : α → β) (k : α) (v : β) : α → β := fun x => if x = k then v else f x
 
 def uniq {α} [DecidableEq α] : List α → List α → List α
   | [], acc => acc.reverse
@@ -34,13 +34,13 @@ def fetchedReads (d : Decl) : List ResId := uniq (d.reads.filter fun x => x ∉ 
 def sumReads (rs : List ResId) (w : ResId → UInt64) : UInt64 := rs.foldl (fun s r => s + w r) 0
 
 def writeAll (ws : List ResId) (tag sum c : UInt64) (w : ResId → UInt64) : ResId → UInt64 :=
-  ws.foldl (fun w r => upd w r (mix (w r) tag sum c)) w
+  ws.foldl (fun w r => updF w r (mix (w r) tag sum c)) w
 
 def runSys (tag : Nat) (d : Decl) (st : EffState) : EffState :=
   let sum := sumReads (fetchedReads d) st.world
   let c := (st.locals tag).1
   let seen := (st.locals tag).2
   { world := writeAll (fetchedWrites d) tag.toUInt64 sum c st.world,
-    locals := upd st.locals tag (c + 1, mix seen tag.toUInt64 sum c) }
+    locals := updF st.locals tag (c + 1, mix seen tag.toUInt64 sum c) }
 
 end Shred
